@@ -618,6 +618,13 @@ def o_rt(case):
         except Exception as e:  # noqa
             return ("roundtrip:%s:get-raises-%s" % (kind, type(e).__name__),
                     "%s = %r then reading raises %s: %s" % (tag, value, type(e).__name__, str(e)[:100]))
+        if not pred(got) and kind == "ct_params" and isinstance(value, dict):
+            bad = [k for k in value if not isinstance(got, dict) or got.get(k) != value[k]]
+            k = bad[0] if bad else next(iter(value))
+            sub = ("token-name" if not re.match(r"\A[A-Za-z0-9]+\Z", k) else
+                   "quoted-pair" if ('"' in value[k] or "\\" in value[k]) else
+                   "unquoted-value" if '"' not in hdr.split(";", 1)[-1] else "quoted-value")
+            return ("roundtrip:ct_params:" + sub, "%s = %r (header %r) reads back %r" % (tag, value, hdr, got))
         if not pred(got):
             sub = ":aware" if isinstance(value, DT) and value.tzinfo is not None else ""
             return ("roundtrip:%s%s" % (kind if not sub else "date", sub), "%s = %r (header %r) reads back %r, expected %s (TZ=%s)"
